@@ -120,18 +120,6 @@ Section Sound.
     - destruct (IH ff1 del1 f H) as [f' [A B]]. rewrite E2 in A. exists f'. split; [right; exact A | exact B].
   Qed.
 
-  Lemma insert_sorted_in x l y : In y (insert_sorted x l) <-> y = x \/ In y l.
-  Proof.
-    induction l as [|z t IH]; simpl; [intuition|].
-    destruct (N.ltb (snd x) (snd z)); simpl; [intuition|]. rewrite IH. intuition.
-  Qed.
-  Lemma sort_ins_in l y : In y (sort_ins l) <-> In y l.
-  Proof.
-    unfold sort_ins. assert (G : forall acc, In y (fold_left (fun acc x => insert_sorted x acc) l acc) <-> In y acc \/ In y l).
-    { induction l as [|x t IH]; simpl; intro acc; [intuition|]. rewrite IH. rewrite insert_sorted_in. intuition. }
-    rewrite G. simpl. intuition.
-  Qed.
-
   Lemma ematch_attrs e f f' : same_attrs f f' -> ematch e f -> ematch e f'.
   Proof. unfold same_attrs, ematch. intuition congruence. Qed.
 
@@ -151,7 +139,7 @@ Section Sound.
        content, re-identified by its path or (usable inodes) by its inode: everything else will be read again *)
     ds_blk : forall f, In f (cd_files cd) -> (exists b, In b (cf_blocks f) /\ fb_state b = SBlk) ->
              exists f0, In f0 (cd_files d0) /\ cf_blocks f = cf_blocks f0 /\ cf_size f = cf_size f0 /\ cf_mtime f = cf_mtime f0 /\
-                        (cf_nsec f = cf_nsec f0 \/ cf_nsec f0 = (-1)%Z) /\
+                        cf_copy f = cf_copy f0 /\ (cf_nsec f = cf_nsec f0 \/ cf_nsec f0 = (-1)%Z) /\
                         (cf_name f = cf_name f0 \/ (usable = true /\ cf_inode f = cf_inode f0))
   }.
 
@@ -200,7 +188,7 @@ Section Sound.
     - intros f Hf [b [Hb Hs]]. apply in_app_iff in Hf. destruct Hf as [Hf|Hf].
       + apply (proj1 (Hkept f)) in Hf. destruct Hf as [sf [Hsf [Hp E]]]. subst f.
         destruct (di_origin0 sf Hsf) as [f0 [Hf0 O]]. unfold origin in O. rewrite Hp in O.
-        destruct O as [O1 [O2 [O3 [O4 O5]]]]. exists f0. repeat split; auto.
+        destruct O as [O1 [O2 [O3 [Oc [O4 O5]]]]]. exists f0. repeat split; auto.
       + destruct (Hadd1 f Hf) as [fk [_ [_ NB]]]. exfalso. exact (NB b Hb Hs).
   Qed.
 
